@@ -154,7 +154,7 @@ func genC04(t *rapid.T) c04Case {
 		c.Ops = append(c.Ops, c04Op{
 			Op:    rapid.SampledFrom([]string{"est", "est", "est", "lost", "stream", "stream", "pend", "feed"}).Draw(t, "op"),
 			L:     rapid.IntRange(0, nl-1).Draw(t, "l"),
-			Proto: rapid.IntRange(0, 4).Draw(t, "proto"),
+			Proto: rapid.IntRange(0, len(c04Protos)-1).Draw(t, "proto"),
 		})
 	}
 	return c
@@ -168,7 +168,9 @@ func (l c04Link) uuid() uint64 {
 	return uint64(2000 + l.Node*100 + l.Remote*10 + l.Addr)
 }
 
-var c04Protos = []string{"verif/p0", "verif/p1", "verif/é", " verif/p0", "verif/p1\n"}
+var c04Protos = []string{"verif/p0", "verif/p1", "verif/é", " verif/p0", "verif/p1\n",
+	// two ids that agree on their first 40 bytes
+	"verif/a-family-of-protocols-with-a-long-name/v1", "verif/a-family-of-protocols-with-a-long-name/v2"}
 
 func checkC04(c c04Case) (o vstat.Outcome) {
 	if c.SharedUUID {
